@@ -182,6 +182,11 @@ def make_step(cfg):
         e_near = jnp.maximum(eo + width * 2.0 ** -45, jnp.nextafter(eo, jnp.inf))
         r_near = -s + 3 * mu * (e_near - eo) + hm.compute_flow_stress(e_near, eo, dt)     # residual a hair above eqps_old
         dY_new = jax.grad(hm.compute_flow_stress)(new[0], eo, dt)
+        # residual of the scalar return-mapping equation at the binary64 neighbours of the returned eqps (not below eqps_old)
+        e_hi = jnp.nextafter(new[0], jnp.inf)
+        e_lo = jnp.maximum(eo, jnp.nextafter(new[0], -jnp.inf))
+        r_hi = -s + 3 * mu * (e_hi - eo) + hm.compute_flow_stress(e_hi, eo, dt)
+        r_lo = -s + 3 * mu * (e_lo - eo) + hm.compute_flow_stress(e_lo, eo, dt)
         Enew = strain_fn(H, new)
         s_new = 2 * mu * jnp.tensordot(TensorMath.dev(Enew), N)
         Y_new = hm.compute_flow_stress(new[0], eo, dt)
@@ -196,7 +201,7 @@ def make_step(cfg):
         phi_star = J2.incremental_potential(Etr, new[0], eo, dt, props, hm)
         M = new[1:].reshape((3, 3))
         iso = jnp.where(finite, jnp.linalg.det(M) - 1.0, jnp.trace(M))
-        return dict(new=new, s=s, Yo=Yo, Y_ub=Y_ub, r_near=r_near, dY_new=dY_new, s_new=s_new, Y_new=Y_new, W_old=W_old, W_new=W_new, dP=jnp.max(jnp.abs(P_old - P_new)), Pn=jnp.max(jnp.abs(P_old)),
+        return dict(new=new, s=s, Yo=Yo, Y_ub=Y_ub, r_near=r_near, r_hi=r_hi, r_lo=r_lo, dY_new=dY_new, s_new=s_new, Y_new=Y_new, W_old=W_old, W_new=W_new, dP=jnp.max(jnp.abs(P_old - P_new)), Pn=jnp.max(jnp.abs(P_old)),
                     new2=new2, es=es, phi=phi, phi_star=phi_star, iso=iso, trN=jnp.trace(N), NN=jnp.tensordot(N, N), mu=mu + 0 * eo)
 
     return jax.jit(jax.vmap(step)), mm
@@ -217,12 +222,15 @@ def run_config(ctx, cfg, nb, ns):
             recs.append(dict(b=b, k=k, H=[[float(x) for x in row] for row in Hs[b, k]], dt=float(dts[b, k]), state=[float(x) for x in state[b]],
                              new=[float(x) for x in o['new'][b]], new2=[float(x) for x in o['new2'][b]],
                              es=[float(x) for x in o['es'][b]], phi=[float(x) for x in o['phi'][b]],
-                             **{q: float(o[q][b]) for q in ('s', 'Yo', 'Y_ub', 'r_near', 'dY_new', 's_new', 'Y_new', 'W_old', 'W_new', 'dP', 'Pn', 'phi_star', 'iso', 'trN', 'NN', 'mu')}))
+                             **{q: float(o[q][b]) for q in ('s', 'Yo', 'Y_ub', 'r_near', 'r_hi', 'r_lo', 'dY_new', 's_new', 'Y_new', 'W_old', 'W_new', 'dP', 'Pn', 'phi_star', 'iso', 'trN', 'NN', 'mu')}))
         state = o['new']
     return recs
 
 
 # ----------------------------------------------------------------------------- L2: conclusions on the implementation's outputs
+
+WITHIN_ULP = [0]     # steps whose exact root lies within one ulp of the returned eqps while the residual there exceeds the tolerance
+
 
 def concl(cfg, rec, nsteps_so_far):
     P = cfg['props']
@@ -255,6 +263,13 @@ def concl(cfg, rec, nsteps_so_far):
     if d > 0 and rec['dY_new'] == rec['dY_new'] and not math.isinf(rec['dY_new']):
         rnd += 8 * abs(rec['dY_new']) * math.ulp(max(en, 1e-300))      # conditioning of the flow stress w.r.t. rounding of the stored eqps
     f_new = rec['s_new'] - rec['Y_new']
+    # Rate sensitivity: the power-law overstress has an infinite slope at eqps_old, so for a barely yielding step the exact root can lie
+    # closer to eqps_old than one ulp of eqps; no binary64 eqps then meets the tolerance.  The clause "to the solver tolerance" is read as:
+    # the residual is within tolerance, OR the returned eqps is the best binary64 can do (the residual of the scalar return-mapping equation
+    # changes sign between the two binary64 neighbours of the returned value, i.e. the exact root is within one ulp of it).
+    if cfg['rate'] and abs(f_new) > tol + rnd and rec['r_lo'] <= 0.0 <= rec['r_hi']:
+        WITHIN_ULP[0] += 1
+        f_new = 0.0
     if f_new > tol + rnd:
         bad.append(('yield_consistent', 'after the update trial stress - flow stress = %r > tolerance %r' % (f_new, tol), None))
     if d > 0 and abs(f_new) > tol + rnd:
@@ -367,6 +382,7 @@ def correspondence(ctx, model_ok):
     ctx.count('evaluations', total)
     ctx.count('distinct_nontrivial', len(distinct))
     ctx.count('yielding_steps', yielding)
+    ctx.count('rate_steps_root_within_one_ulp_of_result', WITHIN_ULP[0])
     ctx.cov['configurations'] = hist
     if not model_ok:
         return
@@ -429,7 +445,7 @@ def _replay_case(case):
     o = stepf(jnp.array([case['H']]), jnp.array([case['state']]), jnp.array([case['dt']]))
     rec = dict(b=0, k=case.get('step', 0), H=case['H'], dt=case['dt'], state=case['state'], new=[float(x) for x in o['new'][0]], new2=[float(x) for x in o['new2'][0]],
                es=[float(x) for x in o['es'][0]], phi=[float(x) for x in o['phi'][0]],
-               **{q: float(o[q][0]) for q in ('s', 'Yo', 'Y_ub', 'r_near', 'dY_new', 's_new', 'Y_new', 'W_old', 'W_new', 'dP', 'Pn', 'phi_star', 'iso', 'trN', 'NN', 'mu')})
+               **{q: float(o[q][0]) for q in ('s', 'Yo', 'Y_ub', 'r_near', 'r_hi', 'r_lo', 'dY_new', 's_new', 'Y_new', 'W_old', 'W_new', 'dP', 'Pn', 'phi_star', 'iso', 'trN', 'NN', 'mu')})
     return concl(cfg, rec, case.get('step', 0)), rec
 
 
